@@ -47,6 +47,56 @@ type B struct {
 type Item struct {
 	P *P
 	B *B
+	// live message objects, kept only when the recorder's KeepLive flag is set (C10 aliasing oracle)
+	liveP edge.PointMessage
+	liveB edge.BufferedBatchMessage
+}
+
+// LiveDiff re-reads the message object the sink received and reports how it differs now from
+// the plain copy taken at receipt ("" = unchanged, or not kept). A difference means somebody
+// mutated a message (or a map it references) after it had been forwarded.
+func (it Item) LiveDiff() string {
+	switch {
+	case it.liveP != nil:
+		now := PlainPoint(it.liveP)
+		if d := diffP(it.P, now); d != "" {
+			return d
+		}
+	case it.liveB != nil:
+		now := PlainBatch(it.liveB)
+		if now.Name != it.B.Name || now.Group != it.B.Group || !now.TMax.Equal(it.B.TMax) || fmt.Sprint(now.Tags) != fmt.Sprint(it.B.Tags) || fmt.Sprint(now.Dims) != fmt.Sprint(it.B.Dims) {
+			return fmt.Sprintf("batch header was %s/%s/%v/%v, is now %s/%s/%v/%v", it.B.Name, it.B.Group, it.B.Tags, it.B.TMax, now.Name, now.Group, now.Tags, now.TMax)
+		}
+		if len(now.Points) != len(it.B.Points) {
+			return fmt.Sprintf("batch had %d points, now %d", len(it.B.Points), len(now.Points))
+		}
+		for i := range now.Points {
+			a, b := it.B.Points[i], now.Points[i]
+			if d := diffP(&P{Tags: a.Tags, Fields: a.Fields, Time: a.Time}, &P{Tags: b.Tags, Fields: b.Fields, Time: b.Time}); d != "" {
+				return fmt.Sprintf("batch point %d: %s", i, d)
+			}
+		}
+	}
+	return ""
+}
+
+func diffP(was, now *P) string {
+	if was.Name != now.Name || was.Group != now.Group || !was.Time.Equal(now.Time) || fmt.Sprint(was.Dims) != fmt.Sprint(now.Dims) {
+		return fmt.Sprintf("was %s group=%q dims=%v t=%v, is now %s group=%q dims=%v t=%v", was.Name, was.Group, was.Dims, was.Time, now.Name, now.Group, now.Dims, now.Time)
+	}
+	if fmt.Sprint(was.Tags) != fmt.Sprint(now.Tags) {
+		return fmt.Sprintf("tags were %v, are now %v", was.Tags, now.Tags)
+	}
+	if len(was.Fields) != len(now.Fields) {
+		return fmt.Sprintf("fields were %v, are now %v", was.Fields, now.Fields)
+	}
+	for k, v := range was.Fields {
+		w, ok := now.Fields[k]
+		if !ok || fmt.Sprintf("%T:%v", v, v) != fmt.Sprintf("%T:%v", w, w) {
+			return fmt.Sprintf("fields were %v, are now %v", was.Fields, now.Fields)
+		}
+	}
+	return ""
 }
 
 func copyTags(t models.Tags) map[string]string {
@@ -202,6 +252,8 @@ type Recorder struct {
 	errs     []NodeError
 	stopped  map[string]string // task -> error text ("" = clean)
 	Triggers int64
+	// KeepLive makes sinks retain the message objects they received (set before the task starts).
+	KeepLive bool
 }
 
 func NewRecorder() *Recorder {
@@ -334,13 +386,21 @@ func (d *nodeDiag) LogPointData(key, prefix string, data edge.PointMessage) {
 	if strings.HasPrefix(prefix, "!") { // pass-through marker: ignore
 		return
 	}
-	d.r.Sink(prefix).pass(Item{P: PlainPoint(data)})
+	it := Item{P: PlainPoint(data)}
+	if d.r.KeepLive {
+		it.liveP = data
+	}
+	d.r.Sink(prefix).pass(it)
 }
 func (d *nodeDiag) LogBatchData(key, prefix string, data edge.BufferedBatchMessage) {
 	if strings.HasPrefix(prefix, "!") {
 		return
 	}
-	d.r.Sink(prefix).pass(Item{B: PlainBatch(data)})
+	it := Item{B: PlainBatch(data)}
+	if d.r.KeepLive {
+		it.liveB = data
+	}
+	d.r.Sink(prefix).pass(it)
 }
 
 type edgeDiag struct{}
